@@ -753,10 +753,11 @@ def report_a(ctx, cases, stats):
             continue
         stats["predicate_failures_a"] += 1
         if v[0] == "oracle-raises":
-            sig = ("oracle", r["e"]["cls"])
-            if sig not in seen:
-                seen.add(sig)
-                ctx.violation(dict(replay_a(r), kind="oracle-raises", what=v[2]), no_input=True)
+            # the plain-torch assembly itself cannot be evaluated (generator artefact such as a Cat of pieces whose other
+            # dimensions differ): nothing to compare against; counted, and still compared with the model in Coq
+            stats["oracle_raises"] = stats.get("oracle_raises", 0) + 1
+            stats["predicate_failures_a"] -= 1
+            r["verdict"] = None
             continue
         key = key_a(r["e"], r["cell"], v[0], v[2], rgkind_of(r["mask"]))
         sig = json.dumps(key, sort_keys=True)
@@ -820,6 +821,9 @@ def report_b(ctx, summ, stats):
         key = res.get("key") or {}
         if key.get("fail") == "raises" and key.get("phase") in ("forward", "build"):
             stats["forward_raises_outside_C07"] += 1   # no gradient is ever requested: properties C01 / C03 / C05 / C06
+            continue
+        if key.get("fail") == "shape" and (res.get("offender") or {}).get("owner") == "output":
+            stats["forward_value_differs_outside_C07"] += 1      # the entry point's result has another shape: forward defect
             continue
         if key.get("fail") in ("value", "none") and res.get("forward_agrees") is False and not key.get("has_chol_upper"):
             # the scalar itself differs from the dense computation: a forward defect (properties C01 / C04 / C05 / C06),
